@@ -68,6 +68,10 @@ def run(tier, seed):
     for p in pats[:40]:
         for cu in cvariants[5:]:
             keys.append((':--cust ' + p if rnd.random() < 0.5 else ':--cust', None, cu, 0))
+    # patterns that the parser's input preprocessing maps to the same text are still different keys (and report their own text)
+    for p1, p2 in (('p.a\x00b', 'p.a\ufffdb'), ('#x\x00', '#x\ufffd'), ('p\r\nq', 'p\nq'), ('a\x0cb', 'a\nb'), ('p .x', 'p  .x'), ('P', 'p')):
+        keys.append((p1, None, None, 0))
+        keys.append((p2, None, None, 0))
     # what each key must compile to: a parse from a purged state, before any history
     expected = {}
     for (p, ns, cu, fl) in keys:
@@ -322,6 +326,17 @@ print(json.dumps(out))
                         d['y'] = 'urn:y'
                 else:
                     d[':--k'] = 'span.b%d' % i
+    sv.purge()
+    for p1, p2 in (('p.a\x00b', 'p.a\ufffdb'), ('#x\x00', '#x\ufffd'), ('p\r\nq', 'p\nq'), ('a\x0cb', 'a\nb'), ('p .x', 'p  .x'), ('P', 'p')):
+        sv.purge()
+        a_, b_ = sv.compile(p1), sv.compile(p2)
+        fa_ = cp.CSSParser(p1).process_selectors()
+        ck.count(('preprocessing-twins', p1))
+        if a_.pattern != p1 or b_.pattern != p2 or a_ is b_ or a_ == b_ or a_.selectors != fa_ or sv.compile(p1) is not a_:
+            ck.violation(f'compile({p1!r}) and compile({p2!r}) are different keys: each must report its own pattern text, be a distinct, '
+                         'unequal object and equal a fresh parse of its own arguments',
+                         {'pattern_1': p1, 'pattern_2': p2, 'reported_1': a_.pattern, 'reported_2': b_.pattern, 'same_object': a_ is b_,
+                          'equal': a_ == b_})
     sv.purge()
     # ... also when the extra argument only restates what the selector was compiled with
     for ns_, cu_, fl_ in (({'a': 'urn:a'}, None, 0), (None, {':--x': 'p'}, 0), ({'': 'urn:d', 'b': 'urn:b'}, {':--x': 'p', ':--y': 'div'}, 0),
